@@ -67,7 +67,11 @@ class IndexTyper:
         elif isinstance(st, ast.AugAssign):
             self.ev(st.value)
         elif isinstance(st, ast.For):
-            self.bind(st.target, self.elem(self.ev(st.iter)), st)
+            if isinstance(st.iter, (ast.Tuple, ast.List)) and st.iter.elts:
+                ks = [self.ev(x) for x in st.iter.elts]
+                self.bind(st.target, ks[0] if all(k == ks[0] for k in ks) else UNK, st)
+            else:
+                self.bind(st.target, self.elem(self.ev(st.iter)), st)
             for b in st.body + st.orelse:
                 self.stmt(b)
         elif isinstance(st, (ast.If, ast.While)):
@@ -237,6 +241,15 @@ class IndexTyper:
                 return ("RANGE", I(0))
             if f == "enumerate":
                 return ("ENUM", self.elem(args[0])) if args else UNK
+            if f == "zip" and args:
+                return ("LIST", ("TUP", [self.elem(a) for a in args]))
+            if (f.endswith(".update") or f.endswith(".extend")) and len(args) == 1 and isinstance(e.args[0], (ast.Tuple, ast.List, ast.Set)):
+                tgt = ast.unparse(e.func.value)
+                ks = [normalise(self.ev(x)) for x in e.args[0].elts]
+                old = self.env.get(tgt)
+                if ks and all(k == ks[0] for k in ks) and (old is None or old == ("LIST", UNK) or old == UNK):
+                    self.env[tgt] = ("LIST", ks[0])
+                return UNK
             if f == "sorted":
                 return ("LIST", self.elem(args[0])) if args and isinstance(args[0], tuple) else (args[0] if args else UNK)
             if f in ("list", "reversed", "tuple"):
